@@ -233,6 +233,44 @@ pub fn world_cfg(wi: usize) -> GenCfg {
   cfg
 }
 
+/// several modules import one target dynamically, some plainly and some as an asset (`type: "text"`
+/// / `"bytes"`) or in source phase: whether the target's contents are needed is decided over all of them
+fn dynamic_mix(rng: &mut Rng, w: &mut World) {
+  let modules: Vec<usize> = (0..w.resp.len()).filter(|i| matches!(&w.resp[*i], Resp::Module { broken: Broken::No, .. })).collect();
+  if modules.len() < 3 {
+    return;
+  }
+  let target = modules[rng.below(modules.len())];
+  let text = w.specs[target].to_string();
+  w.opts.unstable_text = true;
+  w.opts.unstable_bytes = true;
+  let mut order: Vec<usize> = modules
+    .iter()
+    .copied()
+    .filter(|m| *m != target && matches!(ext_of(&w.specs[*m]).as_str(), "ts" | "js" | "tsx" | "jsx" | "mts" | "mjs"))
+    .collect();
+  rng.shuffle(&mut order);
+  for (k, m) in order.into_iter().take(3).enumerate() {
+    let form = match (k + rng.below(3)) % 3 {
+      0 => Form::Dynamic,
+      1 => Form::DynamicWith(["text", "bytes"][rng.below(2)].to_string()),
+      _ => Form::Dynamic,
+    };
+    // entries served under the final specifier `m` carry a copy of its source: keep them alike
+    for r in w.resp.iter_mut() {
+      if let Resp::Module { final_spec, items, .. } = r {
+        if *final_spec == m {
+          items.push(Item { form: form.clone(), text: text.clone() });
+        }
+      }
+    }
+    // make sure the importer is reached
+    if !w.roots.contains(&m) && w.roots.len() < 4 {
+      w.roots.push(m);
+    }
+  }
+}
+
 pub fn run(tier: &str, seed: u64) -> Report {
   let mut report = Report::new("C01");
   report.rule = "generated worlds (2-9 specifiers + forced redirect chains/cycles; file/https/http origins; every \
@@ -250,7 +288,11 @@ pub fn run(tier: &str, seed: u64) -> Report {
   for wi in 0..n {
     let cfg = world_cfg(wi);
     let mut wr = rng.fork();
-    let w = gen_world(&mut wr, &cfg);
+    let mut w = gen_world(&mut wr, &cfg);
+    if wi % 11 == 4 && !cfg.allow_inconsistent_finals {
+      dynamic_mix(&mut wr, &mut w);
+    }
+    let w = w;
     let mut ctx = Ctx::default();
     let req = build_request(&mut ctx, &w, &w.roots, MODEL_FUEL);
     let loader = ScriptedLoader::new(&w);
@@ -403,6 +445,47 @@ pub fn run(tier: &str, seed: u64) -> Report {
             let first_attr = d.imports.iter().find_map(|i| i.attributes.get("type").map(|s| s.to_string()));
             if d.maybe_attribute_type != first_attr {
               report.fail("oracle", "attribute-type-not-from-source", format!("{} dependency {:?}: recorded attribute {:?}, imports say {:?}", m.specifier(), t, d.maybe_attribute_type, first_attr), desc.clone());
+            }
+          }
+        }
+        // ---- oracle 6b: a module whose contents some followed import needs is not an asset stand-in --
+        {
+          let follow = |s: &ModuleSpecifier| -> ModuleSpecifier {
+            let mut cur = s.clone();
+            for _ in 0..32 {
+              match g.redirects.get(&cur) {
+                Some(n) => cur = n.clone(),
+                None => break,
+              }
+            }
+            cur
+          };
+          for m in g.modules() {
+            let declaration = matches!(m.media_type(), deno_graph::MediaType::Dts | deno_graph::MediaType::Dmts | deno_graph::MediaType::Dcts);
+            for (t, d) in m.dependencies() {
+              if (d.is_dynamic && w.opts.skip_dynamic_deps) || declaration || !g.graph_kind().include_code() {
+                continue;
+              }
+              let needs_contents = d.imports.iter().any(|i| {
+                matches!(i.kind, deno_graph::ImportKind::Es | deno_graph::ImportKind::Require | deno_graph::ImportKind::JsxImportSource) && !i.attributes.has_asset()
+              });
+              if !needs_contents {
+                continue;
+              }
+              let Some(target) = ok_spec(&d.maybe_code) else { continue };
+              let target = follow(target);
+              let Some(i) = w.spec_index(&target) else { continue };
+              let serves_module = matches!(&w.resp[i], Resp::Module { final_spec, broken: Broken::No, .. } if *final_spec == i);
+              if serves_module {
+                if let Some(Module::External(_)) = g.get(&target) {
+                  report.fail(
+                    "oracle",
+                    "module-needed-for-its-contents-is-an-asset-stand-in",
+                    format!("{} imports {:?} for its contents, the loader serves a module, but the entry of {} is an external stand-in", m.specifier(), t, target),
+                    desc.clone(),
+                  );
+                }
+              }
             }
           }
         }
